@@ -329,7 +329,7 @@ def run_check(pid: str, root: str, tier: str) -> tuple[int, str]:
     env = {**os.environ, "MSMART_VERIF_REPO": root, "VERIF_SEED": os.environ.get("VERIF_SEED", "0")}
     r = subprocess.run([os.path.join(VERIF, "check"), pid, "--tier", tier, "--no-evidence"], cwd=VERIF,
                        capture_output=True, text=True, timeout=1800, env=env)
-    return r.returncode, r.stdout[-1500:] + r.stderr[-500:]
+    return r.returncode, r.stdout + r.stderr[-500:]
 
 
 def main() -> int:
@@ -354,7 +354,7 @@ def main() -> int:
             rc, out, realistic = -1, f"ERROR {e}", None
         finally:
             shutil.rmtree(d, ignore_errors=True)
-        killed = rc == 1
+        killed = rc == 1 and "VIOLATION property=" in out
         results.append({"property": pid, "mutant": name, "killed": killed, "rc": rc,
                         "passes_repo_tests": realistic, "wall_s": round(time.time() - t0, 1)})
         mech = [l for l in out.splitlines() if "mechanism=" in l][:2]
